@@ -49,11 +49,12 @@ structure Part (α : Type) where
   batch : Nat
 
 /-- where the `m`-th operand starts along the axis -/
-def startOf {α} (ps : List (Part α)) (m : Nat) : Nat := ((ps.take m).map (·.extent)).foldl (· + ·) 0
+def startOf {α} (ps : List (Part α)) (m : Nat) : Nat := ((ps.take m).map (·.extent)).sum
 
-/-- `concat(xs, dim)`: the operands one after the other along the axis -/
-def IsConcat {α} (ps : List (Part α)) (Y : V4 α) : Prop :=
-  ∀ m (h : m < ps.length) a k c b, k < ps[m].extent →
+/-- `concat(xs, dim)`: the operands one after the other along the axis
+(`L`, `U`, `B`: extents below / above the axis and number of samples of the result) -/
+def IsConcat {α} (L U B : Nat) (ps : List (Part α)) (Y : V4 α) : Prop :=
+  ∀ m (h : m < ps.length) a k c b, a < L → k < ps[m].extent → c < U → b < B →
     Y a (startOf ps m + k) c b = ps[m].view a k c (share ps[m].batch b)
 
 /-- `flip(x, dim)`: the axis reversed -/
@@ -102,11 +103,12 @@ structure BPart (α : Type) where
   view : V2 α
   batch : Nat
 
-def bstartOf {α} (ps : List (BPart α)) (m : Nat) : Nat := ((ps.take m).map (·.batch)).foldl (· + ·) 0
+def bstartOf {α} (ps : List (BPart α)) (m : Nat) : Nat := ((ps.take m).map (·.batch)).sum
 
-/-- `batch::concat(xs)` -/
-def IsBatchConcat {α} (ps : List (BPart α)) (Y : V2 α) : Prop :=
-  ∀ m (h : m < ps.length) v b, b < ps[m].batch → Y v (bstartOf ps m + b) = ps[m].view v b
+/-- `batch::concat(xs)`: the samples of the operands one after the other
+(`V`: elements per sample) -/
+def IsBatchConcat {α} (V : Nat) (ps : List (BPart α)) (Y : V2 α) : Prop :=
+  ∀ m (h : m < ps.length) v b, v < V → b < ps[m].batch → Y v (bstartOf ps m + b) = ps[m].view v b
 
 /-- `identity(size)` -/
 def identity {α} (zero one : α) : Nat → Nat → α := fun i j => if i = j then one else zero
